@@ -24,6 +24,7 @@ COMPS = {  # component -> trace module
 # when (and only when) the key is listed in KNOWN_FINDINGS.txt; the contracts themselves are always the strict ones.
 KEY_ARENA = "arena_soft_reset_alloc_skips_retained_block"
 KEY_FMT = "string_format_exact_fit_drops_last_char"
+KEY_SELF = "string_append_self_reads_released_buffer"
 
 
 class SubCtx:
@@ -105,6 +106,11 @@ def fixed_scripts():
     s.append({"c": "string", "ops": [["chars", 1, 0, [], 97, 300, 0], ["chars", 1, 0, [], 98, 150, 0], ["fmts", 1, 0, [], 0, 1, 0],
                                      ["str", 1, 0, k, 0, 0, 0]]})                                              # remaining < 128: buffered path
     s.append({"c": "string", "ops": [["fmts", 3, 0, [], 1, 1, 0], ["fmts", 3, 0, k, 0, 0, 0], ["truncate", 3, 0, [], 10, 0, 0]]})
+    # a string appended to itself: within capacity / small -> large / large -> larger
+    s.append({"c": "string", "ops": [["chars", 1, 0, [], 97, 10, 0], ["append_self", 1, 0, [], 0, 0, 0]]})
+    s.append({"c": "string", "ops": [["chars", 1, 0, [], 97, 10, 0], ["char", 1, 0, [], 98, 0, 0], ["append_self", 1, 0, [], 0, 0, 0], ["append_self", 1, 0, [], 0, 0, 0]]})
+    s.append({"c": "string", "ops": [["chars", 2, 0, [], 99, 100, 0], ["char", 2, 0, [], 100, 0, 0], ["append_self", 2, 0, [], 0, 0, 0], ["append_self", 2, 0, [], 0, 0, 0]]})
+    s.append({"c": "string", "ops": [["chars", 3, 0, [], 101, 20, 0], ["char", 3, 0, [], 102, 0, 0], ["append_self", 3, 0, [], 0, 0, 0], ["append_self", 3, 0, [], 0, 0, 0]]})
     return s
 
 
@@ -124,6 +130,11 @@ def classify(comp, rej):
         chain, cur = prev.get("chain", []), prev.get("cur", 0)
         if soft and inv == "ChainOk" and bad["st"].get("bad") and len(chain) >= cur + 2 and bad["op"][0] in ("oneshot", "zeroed", "reusable", "rzeroed", "dup", "ext"):
             return KEY_ARENA, what
+    if comp == "string":
+        if bad.get("e") == "Op" and bad["op"][0] == "append_self" and inv == "HoldsExactly":
+            return KEY_SELF, what
+        if bad.get("e") == "ABORT" and idx >= 1 and recs[idx - 1].get("e") == "Note" and recs[idx - 1]["op"][0] == "append_self":
+            return KEY_SELF, what
     if comp == "string" and bad.get("e") == "Op" and bad["op"][0] == "fmts" and bad["r"][0] == "Ok" and inv in ("HoldsExactly", "NulTerminated"):
         s, assign = bad["op"][1], bad["op"][2]
         before = None
@@ -148,7 +159,7 @@ def run(ctx):
     # ---- 1. abstract types: model checking + behaviour export -------------------------------------------------
     params = {"tree": (6, 5, 4000), "list": (4, 4, 3000), "vector": (4, 0, 1500), "bitset": (3, 0, 1500)} if q else \
              {"tree": (7, 5, 30000), "list": (5, 3, 20000), "vector": (4, 0, 12000), "bitset": (3, 0, 12000)}
-    scripts = fixed_scripts()
+    scripts = []
     mc_states = {}
 
     def mc(item):
@@ -170,19 +181,22 @@ def run(ctx):
     ctx.extra["mc_states"] = mc_states
     sp = ctx.path("scripts.ndjson")
     vlib.write_ndjson(sp, scripts)
-    ctx.log(f"{len(scripts)} scripts ({len(fixed_scripts())} hand-written scenarios)")
+    fp = ctx.path("scenarios.ndjson")
+    vlib.write_ndjson(fp, fixed_scripts())
+    ctx.log(f"{len(scripts)} exported scripts + {len(fixed_scripts())} hand-written scenarios")
 
     # ---- 2./3. execute on the real code -------------------------------------------------------------------------
     runs = []          # (tag, prefix)
-    nshard, nexec, steps = (6, 60, 260) if q else (14, 150, 400)
+    nshard, nexec, steps = (6, 70, 260) if q else (14, 150, 400)
 
     def rnd(i):
         if i < 0:
-            rc, _, err = vlib.run_harness(ctx, bdir, "adt", ["script", sp, ctx.path("s")], timeout=1500, env={"VERIF_SEED": ctx.seed})
-            open(ctx.path("s.err"), "w").write(err)
+            tg, src = ("s", sp) if i == -1 else ("f", fp)
+            rc, _, err = vlib.run_harness(ctx, bdir, "adt", ["script", src, ctx.path(tg)], timeout=1500, env={"VERIF_SEED": ctx.seed})
+            open(ctx.path(tg + ".err"), "w").write(err)
             if rc != 0:
                 raise Broken(f"harness script mode exit {rc}: {err[-1500:]}")
-            return ("s", ctx.path("s"))
+            return (tg, ctx.path(tg))
         pre = ctx.path(f"r{i}")
         rc2, _, err2 = vlib.run_harness(ctx, bdir, "adt", ["random", pre, nexec, steps], timeout=1200, env={"VERIF_SEED": int(ctx.seed) * 1000 + i})
         open(pre + ".err", "w").write(err2)
@@ -190,7 +204,7 @@ def run(ctx):
             raise Broken(f"harness random mode exit {rc2}: {err2[-1500:]}")
         return (f"r{i}", pre)
     with ThreadPoolExecutor(max_workers=8) as ex:
-        runs += list(ex.map(rnd, range(-1, nshard)))
+        runs += list(ex.map(rnd, range(-2, nshard)))
     ctx.log("harness runs done")
 
     # ---- 4. trace validation (one TLC per component and shard, in parallel) ------------------------------------
@@ -200,6 +214,7 @@ def run(ctx):
     tasks = []
     for comp, mod in COMPS.items():
         execs = []
+        scen = []          # the hand-written scenarios get a small file of their own
         for tag, pre in runs:
             path = f"{pre}.{comp}.ndjson"
             if not os.path.exists(path) or os.path.getsize(path) == 0:
@@ -207,8 +222,8 @@ def run(ctx):
             for e in vlib.split_executions(vlib.read_ndjson(path)):
                 # executions that never touched this component carry no information: drop them (keeps TLC short)
                 if any(r.get("e") in ("Op", "ABORT", "Destroyed") for r in e):
-                    execs.append(e)
-        chunks, cur, n = [], [], 0
+                    (scen if tag == "f" else execs).append(e)
+        chunks, cur, n = ([scen] if scen else []), [], 0
         for e in execs:
             if cur and n + len(e) > CHUNK:
                 chunks.append(cur)
@@ -223,6 +238,9 @@ def run(ctx):
             tasks.append((comp, mod, f"{comp}_{j}", p, part))
     lock = threading.Lock()
     timing = {}
+    # many short single-threaded validations run side by side: keep each JVM small (2 GC threads; the quick tier's
+    # runs last a few seconds, where the C1 compiler alone is faster than tiered compilation)
+    os.environ["JAVA_TOOL_OPTIONS"] = "-Xss64m -XX:ParallelGCThreads=2" + (" -XX:TieredStopAtLevel=1" if q else "")
     results = []
 
     def validate(task):
@@ -238,6 +256,7 @@ def run(ctx):
     tasks.sort(key=lambda t: -os.path.getsize(t[3]))          # longest first
     with ThreadPoolExecutor(max_workers=14) as ex:
         list(ex.map(validate, tasks))
+    os.environ.pop("JAVA_TOOL_OPTIONS", None)
     ctx.log(f"{len(tasks)} trace files validated; slowest (s, events):", sorted(timing.items(), key=lambda kv: -kv[1][0])[:4])
 
     nops = 0
